@@ -1003,10 +1003,162 @@ fn run_ccomp(v: &[u64]) {
     }
 }
 
+// ---------------------------------------------------------------------------------------------------- coded regions below structural ones
+// clear / reserve_regions (and, where the composition is Clone, clone / clone_from) on compositions with a coded leaf,
+// compared with a default twin: no dictionary and no code table may appear where a fresh region has none.
+// args: composition (0..8), scenario (0 clear, 1 clear of a merged region, 2 reserve_regions, 3 clone / clone_from), h0 h1 h2 (history), p0 p1 (later pushes)
+trait Coded: Region + Default {
+    const HUFFMAN: bool;
+    /// Push pool value `k`; the canonical bytes of what reads back at the returned index.
+    fn put(&mut self, k: u64) -> Vec<u8>;
+}
+const CPOOL: [&[u8]; 6] = [b"abc", &[0, 1, 2], &[1], b"", &[7, 7, 9], b"abcabc"];
+impl Coded for flatcontainer::OptionRegion<CR> {
+    const HUFFMAN: bool = false;
+    fn put(&mut self, k: u64) -> Vec<u8> {
+        let item = if k == 3 { None } else { Some(CPOOL[k as usize]) };
+        let i = self.push(item);
+        self.index(i).map(|x| x.to_vec()).unwrap_or(vec![255])
+    }
+}
+impl Coded for flatcontainer::SliceRegion<CR> {
+    const HUFFMAN: bool = false;
+    fn put(&mut self, k: u64) -> Vec<u8> {
+        let item: Vec<&[u8]> = vec![CPOOL[k as usize], CPOOL[0]];
+        let i = self.push(item);
+        self.index(i).iter().flat_map(|x| std::iter::once(x.len() as u8).chain(x.iter().copied())).collect()
+    }
+}
+impl Coded for flatcontainer::StringRegion<CR> {
+    const HUFFMAN: bool = false;
+    fn put(&mut self, k: u64) -> Vec<u8> {
+        let s = std::str::from_utf8(CPOOL[k as usize]).unwrap();
+        let i = self.push(s);
+        self.index(i).as_bytes().to_vec()
+    }
+}
+impl Coded for flatcontainer::impls::deduplicate::ConsecutiveIndexPairs<CR> {
+    const HUFFMAN: bool = false;
+    fn put(&mut self, k: u64) -> Vec<u8> {
+        let i = self.push(CPOOL[k as usize]);
+        std::iter::once(i as u8).chain(self.index(i).iter().copied()).collect()
+    }
+}
+impl Coded for flatcontainer::impls::deduplicate::CollapseSequence<CR> {
+    const HUFFMAN: bool = false;
+    fn put(&mut self, k: u64) -> Vec<u8> {
+        let i = self.push(CPOOL[k as usize]);
+        self.index(i).to_vec()
+    }
+}
+impl Coded for flatcontainer::OptionRegion<HuffmanContainer<u8>> {
+    const HUFFMAN: bool = true;
+    fn put(&mut self, k: u64) -> Vec<u8> {
+        let item = if k == 3 { None } else { Some(CPOOL[k as usize]) };
+        let i = self.push(item);
+        self.index(i).map(|x| x.into_owned()).unwrap_or(vec![255])
+    }
+}
+impl Coded for flatcontainer::SliceRegion<HuffmanContainer<u8>> {
+    const HUFFMAN: bool = true;
+    fn put(&mut self, k: u64) -> Vec<u8> {
+        let item: Vec<&[u8]> = vec![CPOOL[k as usize], CPOOL[0]];
+        let i = self.push(item);
+        self.index(i).iter().flat_map(|x| { let o = x.into_owned(); std::iter::once(o.len() as u8).chain(o.into_iter()) }).collect()
+    }
+}
+impl Coded for flatcontainer::ResultRegion<CR, HuffmanContainer<u8>> {
+    const HUFFMAN: bool = true;
+    fn put(&mut self, k: u64) -> Vec<u8> {
+        let item: Result<&[u8], &[u8]> = if k % 2 == 0 { Ok(CPOOL[k as usize]) } else { Err(CPOOL[k as usize]) };
+        let i = self.push(item);
+        match self.index(i) { Ok(x) => x.to_vec(), Err(x) => x.into_owned() }
+    }
+}
+fn try_put<R: Coded>(r: &mut R, k: u64) -> Option<Vec<u8>> {
+    catch_unwind(AssertUnwindSafe(|| r.put(k))).ok()
+}
+fn coded_life<R: Coded>(v: &[u64]) {
+    let h = [v[2] % 6, v[3] % 6, v[4] % 6];
+    let later = [v[5] % 6, v[6] % 6, 1, 4];
+    let filled = || {
+        let mut r = R::default();
+        for k in h {
+            let _ = try_put(&mut r, k);
+        }
+        r
+    };
+    let compare = |r: &mut R, twin: &mut R, marker: u8| {
+        for k in later {
+            let (want, got) = (try_put(twin, k), try_put(r, k));
+            match marker {
+                0 => vassert!(want == got, "VF:coded_life.clear.differs_from_fresh"),
+                _ => vassert!(want == got, "VF:coded_life.reserve.differs_from_twin"),
+            }
+        }
+    };
+    match v[1] {
+        0 => {
+            crate::section("VF:coded_life.clear");
+            let mut r = filled();
+            for _cycle in 0..2 {
+                r.clear();
+                let mut twin = R::default();
+                compare(&mut r, &mut twin, 0);
+            }
+        }
+        1 => {
+            crate::section("VF:coded_life.clear");
+            let src = filled();
+            let mut r = R::merge_regions([&src, &src].into_iter());
+            let _ = try_put(&mut r, h[0]);
+            r.clear();
+            let mut twin = R::default();
+            compare(&mut r, &mut twin, 0);
+        }
+        _ => {
+            if R::HUFFMAN {
+                return; // HuffmanContainer::reserve_regions is todo!() in the crate
+            }
+            crate::section("VF:coded_life.reserve");
+            let src = filled();
+            let (mut r, mut twin) = (R::default(), R::default());
+            if v[1] == 3 {
+                let (a, b) = (try_put(&mut r, h[1]), try_put(&mut twin, h[1]));
+                vassert!(a == b, "VF:coded_life.reserve.differs_from_twin");
+            }
+            r.reserve_regions([&src, &src].into_iter());
+            r.reserve_regions(std::iter::once(&src));
+            compare(&mut r, &mut twin, 1);
+        }
+    }
+}
+fn run_coded_life(v: &[u64]) {
+    use flatcontainer::impls::deduplicate::{CollapseSequence, ConsecutiveIndexPairs};
+    match v[0] {
+        0 => coded_life::<flatcontainer::OptionRegion<CR>>(v),
+        1 => coded_life::<flatcontainer::SliceRegion<CR>>(v),
+        2 => coded_life::<flatcontainer::StringRegion<CR>>(v),
+        3 => coded_life::<ConsecutiveIndexPairs<CR>>(v),
+        4 => coded_life::<CollapseSequence<CR>>(v),
+        5 => coded_life::<flatcontainer::OptionRegion<HuffmanContainer<u8>>>(v),
+        6 => coded_life::<flatcontainer::SliceRegion<HuffmanContainer<u8>>>(v),
+        _ => coded_life::<flatcontainer::ResultRegion<CR, HuffmanContainer<u8>>>(v),
+    }
+}
+fn pre_coded_life(v: &[u64]) -> bool {
+    v[0] < 8 && v[1] < 4 && v[2..].iter().all(|x| *x < 6)
+}
+fn doms_coded_life() -> Vec<Vec<u64>> {
+    vec![range(8), range(4), range(6), vec![0, 5], vec![0, 3], range(6), vec![1, 4]]
+}
+
 pub fn harnesses() -> Vec<H> {
     vec![
         H { name: "huffman_quick", props: &["C06", "C01", "C02", "C08", "C10"], nargs: 6, pre: pre_huff, doms: doms_huff_quick, run: run_huff, panic_ok: false,
             bound: "16 frequency profiles (1..4 symbols with counts 1..4, Fibonacci 10/16/21 symbols, 257/600 equiprobable u16) x all pairs of 12 item shapes (empty .. 24 symbols; every start/end bit offset; 0,1,2+ whole bytes) + third item in {empty, 8 symbols} x {one source; two generations; two sources over the same alphabet with different count shapes; three sources raw/empty/coded} x symbol outside the statistics; clear of a coded container before its first symbol; code books built from no statistics (zero sources, empty sources) store and return the empty item", kani: false },
+        H { name: "coded_life", props: &["C08", "C10"], nargs: 7, pre: pre_coded_life, doms: doms_coded_life, run: run_coded_life, panic_ok: true,
+            bound: "8 compositions with a coded leaf (Option / Slice / String / ConsecutiveIndexPairs / CollapseSequence over CodecRegion<DictionaryCodec>; Option / Slice over HuffmanContainer<u8>; Result of both): history of 3 pool values (incl. tag-like literals, the empty string, repeated strings), then clear (two cycles) / clear of a merged region / reserve_regions on an empty or one-item region (dictionary compositions only), then 4 further pushes compared with a default (or never-reserving) twin: same acceptance, same reads", kani: false },
         H { name: "huffman_full", props: &["C06"], nargs: 6, pre: pre_huff, doms: doms_huff, run: run_huff, panic_ok: false,
             bound: "all 340 profiles over alphabets of 1..4 symbols with counts 1..4, Fibonacci-skewed 10..21 symbols (codes to 20 bits), 257/300/600 equiprobable u16 symbols x all pairs of 12 item shapes x third item in {empty, 8, 17 symbols} x 1-2 merge generations x outsider symbol (thorough tier)", kani: false },
         H { name: "columns_coded_merge", props: &["C10", "C08"], nargs: 2, pre: pre_ccm, doms: doms_ccm, run: run_ccm, panic_ok: false,
